@@ -273,7 +273,7 @@ pub fn build_inputs(cfg: &Cfg) -> Vec<Input> {
                     // the cover as the library numbers it, and many renumberings of the cover itself: which
                     // move fires first depends on the numbering of the set handed to simplify
                     inputs.push(Input { name: format!("pseudo-toroidal cover of corpus symbol {} ({})", gen::EUCLIDEAN_CORPUS[ci], vn), set: MSym::from_ops(3, cov.n, cov.op.clone()), topology_clause: true, fed_by_euclidicity: true, corpus_index: Some(ci) });
-                    for r in 0..cfg.tier.pick(10, 48) {
+                    for r in 0..cfg.tier.pick(10, 160) {
                         let cov2 = cov.renumbered(&rng.perm1(cov.n));
                         inputs.push(Input { name: format!("pseudo-toroidal cover of corpus symbol {} ({}), cover renumbered #{}", gen::EUCLIDEAN_CORPUS[ci], vn, r), set: MSym::from_ops(3, cov2.n, cov2.op.clone()), topology_clause: true, fed_by_euclidicity: true, corpus_index: Some(ci) });
                     }
@@ -287,7 +287,7 @@ pub fn build_inputs(cfg: &Cfg) -> Vec<Input> {
         if let Ok(Some(cov)) = observe(|| pseudo_toroidal_cover(&to_partial_dsym(&d)).map(|x| from_dsym(&x))) {
             if cov.is_valid_symbol() && three_d::unbranched(&cov) {
                 inputs.push(Input { name: format!("pseudo-toroidal cover of the dual of corpus symbol {}", gen::EUCLIDEAN_CORPUS[ci]), set: MSym::from_ops(3, cov.n, cov.op.clone()), topology_clause: true, fed_by_euclidicity: true, corpus_index: Some(ci) });
-                for r in 0..cfg.tier.pick(8, 48) {
+                for r in 0..cfg.tier.pick(8, 160) {
                     let cov2 = cov.renumbered(&rng.perm1(cov.n));
                     inputs.push(Input { name: format!("pseudo-toroidal cover of the dual of corpus symbol {}, cover renumbered #{}", gen::EUCLIDEAN_CORPUS[ci], r), set: MSym::from_ops(3, cov2.n, cov2.op.clone()), topology_clause: true, fed_by_euclidicity: true, corpus_index: Some(ci) });
                 }
@@ -417,7 +417,7 @@ pub fn run(cfg: &Cfg) -> Report {
     }
     report.absorb(ctx);
 
-    report.rule = format!("inputs: pseudo-toroidal covers of the 19 corpus symbols computed from 3-5 numberings of the symbol, each cover as returned and under 10-48 random renumberings of the cover itself, the same for the duals of the corpus symbols, fixed regression numberings of the 553.3 family, lens spaces L(p,q) with 4p chambers (p up to 17, thorough 24) built by the harness's own coset enumeration, pseudo-toroidal covers of every small 3D symbol that passes the euclidicity test's invariant filter, finite universal covers of spherical 3D symbols and their branch-free covers with finite fundamental group; every input repeated {} times (std's per-instance random hash keys make simplify's HashSet iteration, hence its move sequence, vary between calls). Non-trivial = input on which at least one non-merge move fires; distinct = input digests", reps);
+    report.rule = format!("inputs: pseudo-toroidal covers of the 19 corpus symbols computed from 3-5 numberings of the symbol, each cover as returned and under 10-160 random renumberings of the cover itself, the same for the duals of the corpus symbols, fixed regression numberings of the 553.3 family, lens spaces L(p,q) with 4p chambers (p up to 17, thorough 24) built by the harness's own coset enumeration, pseudo-toroidal covers of every small 3D symbol that passes the euclidicity test's invariant filter, finite universal covers of spherical 3D symbols and their branch-free covers with finite fundamental group; every input repeated {} times (std's per-instance random hash keys make simplify's HashSet iteration, hence its move sequence, vary between calls). Non-trivial = input on which at least one non-merge move fires; distinct = input digests", reps);
     report.explanation = "returned set re-read and checked: complete, branch-free, far operations commute, every (0,1,2)- and (1,2,3)-component loopless with curvature exactly 4 (sphere); topology clause: H1 by the harness's textbook presentation + BigInt SNF on both sides, low-index profile up to index 3 (harness search, on the textbook presentation of the result when it has <= 8 generators, else on the library presentation validated by C09); euclidicity inputs: one tile, one vertex, no 2-orbit of length 2; corpus: one canonical minimal image over all numberings and repetitions; move traces from the library hook are recorded per call".into();
     report.assume("None results are counted, not judged, except on torus covers of corpus symbols (a result exists in other numberings); intermediate states are not judged; the low-index profile of covers with hundreds of chambers uses the library's presentation as an instrument (validated by C09)");
     report.require_counter("inputs_judged", 50);
